@@ -371,3 +371,64 @@ def selfcheck_concrete(ck, name, ex_factory, fname, world_factory, so, restype='
             pv = tonum(z3.simplify(r.value)); rv = status[1]['ret']
             if not close(pv, rv, semantics): bad.append(('ret', pv, rv))
         ck.selfcheck('%s seed %d' % (name, sd), not bad, bad[:4])
+
+
+ASAN_RT = '/usr/lib/llvm-14/lib/clang/14.0.6/lib/linux/libclang_rt.asan-x86_64.so'
+
+
+def plain_world(world, values):
+    """JSON-able concrete description of a world (for the out-of-process ASan replay)"""
+    objs = []
+    for o in world.objs:
+        cells = []
+        for off, (ty, val) in o.cells.items():
+            if ty == 'ptr':
+                v = None if val is None else [val[0].name, val[1]]
+            elif z3.is_expr(val):
+                nm = str(val); v = values[nm] if nm in values else tonum(z3.simplify(val))
+            else: v = val
+            cells.append([off, ty, v])
+        objs.append({'name': o.name, 'size': o.size, 'zero': o.zero_default, 'cells': cells})
+    return objs
+
+
+def asan_seq(so_asan, calls, world, values, timeout=120):
+    """Run calls on exact-size malloc'ed objects under AddressSanitizer. Returns ('asan', report) | ('ok', rets) | ('error', msg) | ('crash', sig) | ..."""
+    import subprocess, tempfile
+    def conv(args):
+        out = []
+        for ty, v in args:
+            if ty == 'ptr': out.append([ty, None if v is None else [v[0].name, v[1]]])
+            elif z3.is_expr(v):
+                nm = str(v); out.append([ty, values[nm] if nm in values else tonum(z3.simplify(v))])
+            else: out.append([ty, v])
+        return out
+    spec = {'so': so_asan, 'objs': plain_world(world, values), 'calls': [[f, conv(a), r] for f, a, r in calls]}
+    fd, path = tempfile.mkstemp(suffix='.json'); os.write(fd, json.dumps(spec).encode()); os.close(fd)
+    env = dict(os.environ, LD_PRELOAD=ASAN_RT, ASAN_OPTIONS='detect_leaks=0:exitcode=77:abort_on_error=0:allocator_may_return_null=1', PYTHONMALLOC='malloc')
+    try:
+        p = subprocess.run([sys.executable, os.path.join(os.path.dirname(os.path.abspath(__file__)), 'asan_child.py'), path], env=env,
+                           stdout=subprocess.PIPE, stderr=subprocess.PIPE, text=True, timeout=timeout)
+    except subprocess.TimeoutExpired:
+        return ('timeout', None)
+    finally:
+        os.unlink(path)
+    if 'AddressSanitizer' in p.stderr:
+        m = [l for l in p.stderr.splitlines() if 'ERROR: AddressSanitizer' in l or l.strip().startswith(('READ of', 'WRITE of', '#0', '#1'))]
+        return ('asan', ' | '.join(m[:5])[:600])
+    if p.returncode == 42: return ('error', p.stderr[-300:])
+    if p.returncode == 43: return ('stub', p.stderr[-300:])
+    if p.returncode < 0: return ('crash', -p.returncode)
+    for l in p.stdout.splitlines():
+        if l.startswith('VF-RESULT '): return ('ok', json.loads(l[10:]))
+    return ('exc', (p.stderr or p.stdout)[-600:])
+
+
+def make_asan_replay(so_asan_fn, calls, world):
+    """replay closure for memory-safety obligations: reproduced iff ASan reports (or the process dies with a signal)"""
+    def replay(model, witness):
+        values = world.concretise(model)
+        st = asan_seq(so_asan_fn() if callable(so_asan_fn) else so_asan_fn, calls, world, values)
+        detail = {'native': st[0], 'report': str(st[1])[:600] if len(st) > 1 else None, 'inputs': {k: v for k, v in list(values.items())[:40]}}
+        return st[0] in ('asan', 'crash'), detail
+    return replay
